@@ -326,5 +326,9 @@ func (lang Language) QuoteCharacter(quote rune) (ok bool, escape bool) {
 
 // NestedComments returns true if the language allows for nested multiline comments.
 func (lang Language) NestedComments() bool {
-	return lang == Swift
+	switch lang {
+	case Dart, Haskell, Kotlin, Swift:
+		return true
+	}
+	return false
 }
